@@ -1,6 +1,6 @@
 (* C18 property theorems (logic half; process-history determinism is exploration, see tools/checks/c18.py). *)
 From Coq Require Import List String Ascii.
-From Verif Require Import C18.Integrity C18.IntegrityProofs C18.SettingsModel C18.SettingsProofs.
+From Verif Require Import C18.Integrity C18.IntegrityProofs C18.SettingsModel C18.SettingsProofs C18.Anonymize.
 Import ListNotations.
 Open Scope string_scope.
 
@@ -41,6 +41,18 @@ Print Assumptions settings_roundtrip_exact.
 
 Theorem settings_roundtrip_stable : forall s s', from_dict (as_dict s) = Some s' -> from_dict (as_dict s') = Some s'.
 Proof. exact settings_rt_stable. Qed.
+
+(* DESIGN's `anonymize_injective_on_inputs` is FALSE for the faithful model: `../lib.vy` and `0/lib.vy` get the
+   same bundle key (replayed on the real compiler by the check: a source is silently dropped from the bundle). *)
+Theorem anonymize_injective_on_inputs_refuted : exists p1 p2, p1 <> p2 /\ anonymize p1 = anonymize p2.
+Proof. exact anonymize_refuted. Qed.
+Print Assumptions anonymize_injective_on_inputs_refuted.
+
+(* what does hold: injective on paths without all-digit segments *)
+Theorem anonymize_injective_on_inputs_partial : forall p1 p2, clean p1 = true -> clean p2 = true ->
+  anonymize p1 = anonymize p2 -> p1 = p2.
+Proof. exact anonymize_injective_on_clean_inputs. Qed.
+Print Assumptions anonymize_injective_on_inputs_partial.
 
 (* non-vacuity: a diamond import with a JSON leaf is well-formed; and the hypotheses are jointly
    satisfiable is NOT provable for a real hash (pigeonhole) -- they are the SHA-256 idealisation. *)
